@@ -127,6 +127,9 @@ pub struct Chain {
     pub mempool: Vec<TransactionView>,
     /// build blocks whose nonce is deliberately NOT a PoW solution (forged branch without work)
     pub skip_pow: bool,
+    /// blocks whose epoch is not AFTER `mmr_activated_epoch (0/1)` carry no extension (no chain root commitment): the chain
+    /// before the activation of the MMR and the first block of the activation epoch (its parent is not covered yet)
+    pub mmr_activated_epoch: u64,
 }
 
 struct Provider<'a>(&'a HashMap<OutPoint, CellInfo>);
@@ -217,6 +220,7 @@ impl Chain {
             mined_hashes: tries,
             mempool: vec![],
             skip_pow: false,
+            mmr_activated_epoch: 0,
         };
         chain.append(genesis);
         chain
@@ -399,6 +403,7 @@ impl Chain {
         let (epoch, ct) = self.epoch_of(n);
         let root = self.chain_root(n - 1);
         let ext: Vec<u8> = root.calc_mmr_hash().as_slice().to_vec();
+        let commits_chain_root = epoch > EpochNumberWithFraction::new(self.mmr_activated_epoch, 0, 1);
         let txs = txs.unwrap_or_else(|| self.gen_txs(n));
         let ts = self.now - 2_000_000 + n * 10;
         let block = BlockBuilder::default()
@@ -408,7 +413,7 @@ impl Chain {
             .compact_target(ct.pack())
             .timestamp(ts.pack())
             .transactions(txs)
-            .extension(Some(Bytes::from(ext).pack()))
+            .extension(if commits_chain_root { Some(Bytes::from(ext).pack()) } else { None })
             .build();
         if self.skip_pow {
             // pick a nonce that is not a solution
@@ -457,6 +462,7 @@ impl Chain {
             mined_hashes: 0,
             mempool: vec![],
             skip_pow: false,
+            mmr_activated_epoch: self.mmr_activated_epoch,
         };
         for b in &self.blocks[..=f as usize] {
             c.append(b.clone());
